@@ -8,6 +8,8 @@ import gen
 from common import Driver, f2b, coo_tokens, parse_coo, sparse_to_dict, close, sha
 
 
+REGEN = ("constants", "registry", "umapsrc")
+
 def rand_sym_graph(rng, n, dens):
     A = np.triu((rng.random((n, n)) < dens) * rng.uniform(0.02, 1.0, (n, n)), 1)
     A = A + A.T
@@ -19,6 +21,8 @@ def rand_sym_graph(rng, n, dens):
 
 
 def run(ctx):
+    import srcval as _srcval
+    _srcval.validate_umap(ctx, 200 if ctx.thorough else 40, ctx.rng, only="reprocess_row")     # translated `reprocess_row` vs the Python source
     import umap
     import umap.umap_ as U
     warnings.filterwarnings("ignore")
